@@ -25,7 +25,7 @@ RULE = ('A formula whose bounds are counted in sampling periods, a sampling peri
 
 ASSUMPTIONS = [
     'time stamps are expressed in the default unit (README); the time column of the discrete data set is i * period in that unit',
-    'a bare bound next to a suffixed one is only generated when the default unit equals that unit or the bare value is 0',
+    'a bare bound next to a suffixed one is read in the unit of the suffixed one (the resolution order stated in the property anchors: per-bound unit, else the other bound unit, else the default unit)',
     'the units lanes contain no next/s_next (their one-sample delay is not a duration in the pastifier; recorded in DESIGN.md)',
 ]
 
@@ -84,15 +84,26 @@ class Speller(object):
         return x % n
 
     def __call__(self, a, b):
-        sa = spellings(a, self.p, self.d)
-        sb = spellings(b, self.p, self.d)
+        sa = [x for x in spellings(a, self.p, self.d) if x[1]]      # explicit-unit spellings
+        sb = [x for x in spellings(b, self.p, self.d) if x[1]]
+        mode = self.take(5)       # 0,1: both suffixed; 2: both bare (default unit); 3: lower bare; 4: upper bare
         ta, ua = sa[self.take(len(sa))]
         tb, ub = sb[self.take(len(sb))]
-        # bare next to suffixed: only if both readings coincide
-        if ua == '' and ub not in ('', self.d) and a != 0:
-            ua = self.d
-        if ub == '' and ua not in ('', self.d) and b != 0:
-            ub = self.d
+        da, db = Fraction(a * self.p), Fraction(b * self.p)
+        if mode == 2:
+            xa, xb = decimal_text(da / U[self.d]), decimal_text(db / U[self.d])
+            if xa is not None and xb is not None:
+                ta, ua, tb, ub = xa, '', xb, ''
+        elif mode == 3:
+            # a bare bound next to a suffixed one is read in that unit (anchors of the property: "per-bound unit,
+            # else the other bound unit, else the default unit")
+            xa = decimal_text(da / U[ub])
+            if xa is not None:
+                ta, ua = xa, ''
+        elif mode == 4:
+            xb = decimal_text(db / U[ua])
+            if xb is not None:
+                tb, ub = xb, ''
         sep = ',' if self.take(2) == 0 else ':'
         return '[%s%s%s%s%s]' % (ta, ua, sep, tb, ub)
 
